@@ -496,4 +496,6 @@ def rule_sortkey(ctx):
 
 
 def rules(tier):
-    return [rule_hash, rule_entropy, rule_seed, rule_par, rule_sortkey]
+    from . import carry
+    return [rule_hash, rule_entropy, rule_seed, rule_par, rule_sortkey,
+            carry.make_accessor_rule("R-C20-accessor", {"linfa", "linfa_bayes", "linfa_clustering", "linfa_elasticnet", "linfa_ftrl", "linfa_hierarchical", "linfa_ica", "linfa_kernel", "linfa_linear", "linfa_logistic", "linfa_nn", "linfa_pls", "linfa_preprocessing", "linfa_reduction", "linfa_svm", "linfa_trees", "linfa_tsne", "linfa_datasets"}, 80)]
